@@ -300,3 +300,35 @@ CLAIMS['C05'] = dict(category='proof', ref='5 Core A/E/F, 8 C05',
          "pieces can wedge its own connection (F3, C16) and is kept out of the generators.",
     technique='machine-checked proof in Lean 4 (framing totality and bounds over all byte streams; isolation and lifting on the sequential broker model) + differential correspondence of byte streams on the real broker (real code vs code-shaped model vs reference broker)',
     note='Trusted: Lean kernel; axioms propext/Classical.choice/Quot.sound only; Go harness (raw clients over net.Pipe, PINGREQ barriers, frame scanner used only to know when to wait) + line protocol + fact extractor; Go runtime semantics assumed by the models (slices, append, binary.Uvarint, net.Conn reads, recover); see evidence.assumptions')
+
+# ---- source tie by translation (extract/cmd/xlate, NOTES-xlate.md) ---------------------------------
+_XL = (" Source tie by translation: on every run the Go-subset translator extract/cmd/xlate regenerates Lean definitions of "
+       "whitelisted functions from the Go source (Generated/Xlate.lean) and theorems state that they equal the model functions: %s "
+       "A change of such a function breaks the equality proof; a rewrite the translator cannot read is fatal (NOTES-xlate.md).")
+_XLATE_TIES = {
+ 'C03': "header.msglen/Len/SetRemainingLength, msglen() and Len() of every message type, the standard library's binary.PutUvarint, "
+        "ValidQos/ValidTopic/ValidVersion/SupportedVersions/Type.Valid/Type.DefaultFlags/ConnackCode.Valid/ValidConnackError "
+        "(C03_header_msglen_is_source, C03_SetRemainingLength_is_source, C03_Len_is_source_<type>, C03_msglen_is_source, "
+        "C03_PutUvarint_is_source, C03_validators_are_source; PUBLISH under the hypothesis that the type/flags byte exists: "
+        "C03_Len_is_source_publish_partial), header.Type and header.encode against the model's Hdr.type / Hdr.encode "
+        "(C03_header_Type_is_source, C03_header_encode_is_source_partial: type/flags byte present, remaining length not negative).",
+ 'C04': "the standard library's binary.Uvarint, as found in the toolchain that builds the library, equals the model's uvarint on every "
+        "byte string (C04_Uvarint_is_source); header.decode equals the model's Hdr.decode on every byte string for a header whose "
+        "type/flags slice holds at most one byte (C04_header_decode_is_source_partial; the model's alias flag has no counterpart).",
+ 'C05': "service.peekMessageSize equals the framing model's peekMessageSize for every ring size and stream, with the ring's ReadWait as "
+        "an argument of the translation (C05_peekMessageSize_is_source, C05_peekMessageSize_no_ring).",
+ 'C06': "nextTopicLevel, checkTopic and ValidQos equal the model's level splitter and entry tests on every input "
+        "(C06_nextTopicLevel_is_source, C06_checkTopic_is_source, C06_ValidQos_is_source).",
+ 'C13': "every method of sessions.Ackqueue against the model's Q through an abstraction that forgets integer widths and the scratch "
+        "slice (C13_helpers_are_source, C13_newAckqueue_is_source, C13_grow_is_source, C13_removeHead_is_source, C13_insert_is_source, "
+        "C13_Wait_is_source_partial, C13_Wait_ping_is_source, C13_Ack_is_source_partial, C13_Ack_ping_is_source, C13_Ack_other_is_source, "
+        "C13_Acked_is_source), with message.Message abstracted to the results of the methods the queue calls; partial where the model "
+        "is more abstract: the entry type is taken from the message's dynamic type (equal to msg.Type() for messages made by "
+        "New...Message()/Decode), and Ack's result when Encode of the acknowledgement fails.",
+ 'C14': "powerOfTwo64, roundUpPowerOfTwo64 (least power of two >= n for 0 < n <= 2^62; signed overflow is not represented), the index "
+        "mask pos & (size-1) and ringCopy against the ring model's size = 2^k, idx and byte-by-byte copy (C14_powerOfTwo64_is_source, "
+        "C14_roundUpPowerOfTwo64_partial, C14_idx_is_source, C14_ringCopy_is_source); the ring operations themselves (condition "
+        "variables, atomics) are outside the translator's subset.",
+}
+for _k, _t in _XLATE_TIES.items():
+    CLAIMS[_k]['text'] = CLAIMS[_k]['text'] + _XL % _t
